@@ -1,7 +1,7 @@
 (** C36 — delivery bookkeeping is preserved by every disciplined step. *)
 From Coq Require Import List NArith Bool Lia.
 From C33 Require Import C36.Model C36.ProofsBase C36.ProofsOcc C36.ProofsEff C36.ProofsInv
-  C36.ProofsSteps C36.ProofsInv2 C36.ProofsInv3 C36.ProofsInv4 C36.ProofsDeliv.
+  C36.ProofsSteps C36.ProofsInv2 C36.ProofsInvX C36.ProofsInv3 C36.ProofsInv4 C36.ProofsDeliv.
 Import ListNotations.
 Open Scope N_scope.
 
@@ -93,8 +93,8 @@ Proof.
     destruct x as [o0|]; [|apply (deliv_same s); auto].
     assert (HA : o_where (go s o0) = PChan (c_topic (gc s c)) hi).
     { apply W. simpl. unfold vchan. rewrite Hv. apply in_or_app; right; left; reflexivity. }
-    upd s o0.
-    intros Hd; exfalso; revert Hd; apply not_delivered_place; rewrite HA; discriminate.
+    destruct (o_id (go s o0) =? 0); upd s o0;
+      intros Hd; exfalso; revert Hd; apply not_delivered_place; rewrite HA; discriminate.
   - (* EPumpPut *)
     apply step_pump_put in H. cbv zeta in H. destruct H as (x & Hh & ->).
     destruct x as [o0|]; [|apply (deliv_same s); auto].
@@ -134,4 +134,25 @@ Proof.
     upd s o0.
     intros Hd; exfalso; revert Hd; apply not_delivered_place; rewrite HA; discriminate.
   - step_inv H; auto; apply (deliv_same s); auto.
+  - discriminate Dc.
+  - (* ESub2 *) step_inv H; apply (deliv_same s); auto.
+  - (* EXTake *)
+    apply step_xtake in H. cbv zeta in H. destruct H as (Hh & x & f' & Hpop & ->).
+    pose proof (fpop_objs _ _ _ Hpop) as Hv.
+    destruct x as [o0|]; [|apply (deliv_same s); auto].
+    assert (HA : o_where (go s o0) = PChan (x_topic (gx s k)) hi).
+    { apply W. simpl. unfold vchan. rewrite Hv. apply in_or_app; right; left; reflexivity. }
+    destruct (o_id (go s o0) =? 0); upd s o0;
+      intros Hd; exfalso; revert Hd; apply not_delivered_place; rewrite HA; discriminate.
+  - (* EXPut *)
+    apply step_xput in H. cbv zeta in H. destruct H as (x & Hh & ->).
+    destruct x as [o0|]; [|apply (deliv_same s); auto].
+    assert (HA : o_where (go s o0) = PXHold k).
+    { apply W. simpl. unfold vxhold. rewrite Hh. left; reflexivity. }
+    upd s o0.
+    intros Hd; exfalso; revert Hd; apply not_delivered_place; rewrite HA; discriminate.
+  - step_inv H; apply (deliv_same s); auto.
+  - step_inv H; auto.
+  - step_inv H; apply (deliv_same s); auto.
+  - step_inv H; apply (deliv_same s); auto.
 Qed.
